@@ -1281,7 +1281,7 @@ class LongRuns(Family):
                 "C11_objective_dense", "C11_objective_sparse", "C11_likelihood_not_worse")
 
     def gen(self, rng, tier):
-        n = 45 if tier == "quick" else 300
+        n = 54 if tier == "quick" else 300
         out = []
         for k in range(n):
             N = rng.choice([2, 3, 3])
@@ -1306,7 +1306,7 @@ class LongRuns(Family):
             o["maxinneriters"] = rng.choice([10, 10, 20, 5])
             o["stoptol"] = rng.choice([1e-4, 1e-4, 1e-6, 1e-7])
             dense, sparse = both_representations(X, rng)
-            out.append({"alg": ("pqnr", "pdnr", "pqnr", "pdnr", "mu")[k % 5], "data": dense, "sdata": sparse, "rank": R,
+            out.append({"alg": ("pqnr", "pdnr", "pqnr", "mu", "pqnr", "pdnr")[k % 6], "data": dense, "sdata": sparse, "rank": R,
                         "init": init, "opts": o, "maxiters": rng.choice([5, 10, 10, 25]), "tags": tags})
         return out
 
